@@ -5,6 +5,9 @@
    and return the ids of the sub-checks that differ.  No proofs here. *)
 From VV.EXP Require Export Names PyClass.
 
+(* long runs of one character are printed by the harness as [rep_str "c" n] *)
+Definition rep_str (u : string) (n : N) : string := N.iter n (String.append u) "".
+
 (* ---------- K-exp ---------- *)
 Inductive sea_obs :=
 | SeaOk (d : decl)          (* rendered; declarations parsed from the text *)
